@@ -600,6 +600,7 @@ impl Tour {
         }
     }
 
+    #[cfg_attr(not(test), allow(dead_code))] // the schedule uses new_dummies
     pub(super) fn new_dummy(path: Path, network: Arc<Network>) -> Result<Tour, String> {
         let mut nodes = path.consume();
         // remove non-service nodes
@@ -608,6 +609,29 @@ impl Tour {
             return Err("Dummy tour needs to have at least one service nodes.".to_string());
         }
         Ok(Tour::new_computing(nodes, true, network))
+    }
+
+    /// Dummy tours for the service trips of a path: one tour in general. If dropping the non-service
+    /// nodes leaves consecutive trips that cannot reach each other (a maintenance slot in between was
+    /// the only connection), the trips are split into several dummy tours, each of them a valid path.
+    pub(super) fn new_dummies(path: Path, network: Arc<Network>) -> Vec<Tour> {
+        let mut nodes = path.consume();
+        nodes.retain(|&n| network.node(n).is_service());
+        let mut tours = Vec::new();
+        let mut current: Vec<NodeIdx> = Vec::new();
+        for node in nodes {
+            if let Some(&last) = current.last() {
+                if !network.can_reach(last, node) {
+                    let finished = std::mem::take(&mut current);
+                    tours.push(Tour::new_computing(finished, true, network.clone()));
+                }
+            }
+            current.push(node);
+        }
+        if !current.is_empty() {
+            tours.push(Tour::new_computing(current, true, network));
+        }
+        tours
     }
 
     fn new_computing(nodes: Vec<NodeIdx>, is_dummy: bool, network: Arc<Network>) -> Tour {
